@@ -423,11 +423,24 @@ func generateOTP(secret string, counter uint64, digits otp.Digits, algo otp.Algo
 // registerFunctions registers all Go functions with JavaScript.
 func registerFunctions() {
 	log("Registering functions with JavaScript")
-	js.Global().Set("generateHOTP", js.FuncOf(generateHOTP))
-	js.Global().Set("generateTOTP", js.FuncOf(generateTOTP))
-	js.Global().Set("validateHOTP", js.FuncOf(validateHOTP))
-	js.Global().Set("validateTOTP", js.FuncOf(validateTOTP))
-	js.Global().Set("generateOTPURL", js.FuncOf(generateOTPURL))
+	js.Global().Set("generateHOTP", js.FuncOf(recovered(generateHOTP)))
+	js.Global().Set("generateTOTP", js.FuncOf(recovered(generateTOTP)))
+	js.Global().Set("validateHOTP", js.FuncOf(recovered(validateHOTP)))
+	js.Global().Set("validateTOTP", js.FuncOf(recovered(validateTOTP)))
+	js.Global().Set("generateOTPURL", js.FuncOf(recovered(generateOTPURL)))
+}
+
+// recovered turns a panic inside fn (e.g. syscall/js rejecting a BigInt argument)
+// into an "error: ..." result, so a bad call cannot terminate the Go program.
+func recovered(fn func(js.Value, []js.Value) any) func(js.Value, []js.Value) any {
+	return func(this js.Value, args []js.Value) (result any) {
+		defer func() {
+			if r := recover(); r != nil {
+				result = js.ValueOf(fmt.Sprintf("error: invalid argument: %v", r))
+			}
+		}()
+		return fn(this, args)
+	}
 }
 
 func main() {
